@@ -30,6 +30,7 @@ BOUNDS = {
     "quick": "m,n<=3 (+ whole-matrix scalings 2^-27, 2^27), ranks 0..min, all compositions x 2 value assignments from {1,1/2,1/4,2^-5,2^-10}, factors monomial/Householder, gamma in {1/2,1}, K=12, stop cells tol in {1e-3,1e-6,1e-9} budget 300",
     "thorough": "m,n<=4, gamma in {1/4,1/2,3/4,1}, K=30, dynamic range 2^20",
 }
+THOROUGH_STREAMS = 3
 WALL_BUDGET = {"quick": 420, "thorough": 3000}
 ASSUMPTIONS = [
     "horizon K: 'X tends to the pseudoinverse' is checked as agreement with the closed-form trajectory up to K and as the explicit error bound at a tolerance stop",
